@@ -22,7 +22,7 @@ CALL_WALL_WATCHDOG_S = 240.0
 TIERS = {
     "quick":    {"runs": 4200, "chunk": 4, "wall_cap_s": 80, "max_ops": 24, "ilp_share": 0.06, "b_max": 25000,
                  "det_sample_min": 8, "det_sample_frac": 0.01, "max_reports": 3, "shrink_candidates": 120},
-    "thorough": {"runs": 30000, "chunk": 8, "wall_cap_s": 1700, "max_ops": 40, "ilp_share": 0.10, "b_max": 400000,
+    "thorough": {"runs": 80000, "chunk": 8, "wall_cap_s": 1700, "max_ops": 40, "ilp_share": 0.10, "b_max": 400000,
                  "det_sample_min": 24, "det_sample_frac": 0.003, "max_reports": 4, "shrink_candidates": 300,
                  "fresh_interpreter_check": True, "fresh_sample": 24},
 }
